@@ -41,6 +41,7 @@ type wr struct {
 
 type scenario struct {
 	Coalesce bool   `json:"coalesce"`
+	LateSeed bool   `json:"lateseed"` // the segment that completes the handshake ends INSIDE the inline seed frame; the client writes before the rest arrives
 	ID       string `json:"id"`
 	Kind     string `json:"kind"`
 	Targets  []int  `json:"targets"`
@@ -233,7 +234,8 @@ func runSession(s *scenario) {
 	}
 	// Coalesce: the bridge's application writes before the client has seen the response - the handshake response, the
 	// inline PRNG-seed frame and the first data frame(s) reach the client in ONE segment
-	l := wire.NewLink(!s.Coalesce, 0)
+	manual := s.Coalesce || s.LateSeed
+	l := wire.NewLink(!manual, 0)
 	stopPump := make(chan struct{})
 	defer close(stopPump)
 	pump := func(from, to *wire.Conn) {
@@ -250,7 +252,7 @@ func runSession(s *scenario) {
 			}
 		}
 	}
-	if s.Coalesce {
+	if manual {
 		go pump(l.A, l.B)
 	}
 	srv, cli := &endpoint{raw: l.B, cid: 1}, &endpoint{raw: l.A, cid: 2}
@@ -298,6 +300,17 @@ func runSession(s *scenario) {
 		l.A.Deliver(l.B.Take())
 		go pump(l.B, l.A)
 	}
+	var seedTail []byte
+	if s.LateSeed {
+		// response | seed frame (45 bytes): everything but the last 10 bytes now, the rest after the client has spoken
+		first := l.B.Take()
+		if len(first) < 100 {
+			w.Emit(vt.Ev{"event": "DriverDead", "why": "server's first flight too short"})
+			return
+		}
+		l.A.Deliver(first[:len(first)-10])
+		seedTail = first[len(first)-10:]
+	}
 	cr := <-cch
 	if cr.err != nil {
 		w.Emit(vt.Ev{"event": "DriverDead", "why": "dial: " + cr.err.Error()})
@@ -323,6 +336,35 @@ func runSession(s *scenario) {
 		// the seed frame was in the segment that completed the handshake: the client holds the bridge's table NOW, whatever
 		// frames followed the seed frame in that segment
 		w.Emit(vt.Ev{"event": "Adopt", "cid": 2, "equal": equalInts(ctab, stab)})
+		adopted = true
+	}
+	if s.LateSeed {
+		// the client speaks first, with the table it has (its own); then the rest of the seed frame arrives and from
+		// there on every burst follows the bridge's table - whatever the client sampled or cached before
+		if equalInts(ctab, stab) {
+			w.Emit(vt.Ev{"event": "DriverDead", "why": "the client holds the bridge's table before the seed frame is complete"})
+			return
+		}
+		for _, n := range []int{100, 1427, 5, 3000} {
+			if cmode == 2 && n > 1500 {
+				continue
+			}
+			if !doWrite(cli, n) {
+				return
+			}
+		}
+		l.A.Deliver(seedTail)
+		go pump(l.B, l.A)
+		deadline := time.Now().Add(10 * time.Second)
+		for {
+			c2, _, _ := obfs4.VerifLenTable(cli.conn)
+			if equalInts(c2, stab) || time.Now().After(deadline) {
+				w.Emit(vt.Ev{"event": "Retable", "cid": 2, "side": "c", "mode": cmode, "table": c2})
+				w.Emit(vt.Ev{"event": "Adopt", "cid": 2, "equal": equalInts(c2, stab)})
+				break
+			}
+			time.Sleep(time.Millisecond)
+		}
 		adopted = true
 	}
 	for _, x := range s.Writes {
